@@ -98,7 +98,25 @@ class World:
         self.env["copy"] = _ModuleNS({"copy": Native(self._copy, "copy.copy")})
         self.env["rename"] = Native(lambda mapping: ("pipe", Native(lambda t, _m=mapping: self.rename_table(t, _m))), "rename")
         self.env["_cache_update"] = Native(lambda c, node, rc: (_ for _ in ()).throw(Accepted("Cache.update", (c, node, rc), {})), "Cache.update")
-        self.env["check_subquery"] = Native(lambda new, tbl, is_right=False: (new, tbl), "check_subquery")
+        # check_subquery may hand back a *rebuilt* new table: the stub returns a copy whose node records the call, so that a
+        # result that is dropped (the next step continues with the old table) shows in the node that reaches Cache.update
+        def _check_subquery(new, tbl, is_right=False):
+            n2 = self._copy(new) if isinstance(new, Obj) else new
+            if isinstance(n2, Obj):
+                node = n2.attrs.get("_ast")
+                trace = list(getattr(node, "_cs_trace", [])) if node is not None else []
+                node2 = node
+                if isinstance(node, Obj):
+                    node2 = Obj(node.cls)
+                    node2.attrs = dict(node.attrs)
+                try:
+                    node2._cs_trace = trace + ["right" if is_right else "left"]
+                except AttributeError:
+                    pass
+                n2.attrs["_ast"] = node2
+            return (n2, tbl)
+
+        self.env["check_subquery"] = Native(_check_subquery, "check_subquery")
         self.env["str"] = str
         import functools as _ft
         import operator as _op
